@@ -113,7 +113,7 @@ Lemma cofactor_rec_aux fuel : ∀ s u ord values cache r s',
   match r with
   | Ok (x, cache') => valid s' x ∧ lvl_of s u ≤ lvl_of s' x ∧ cache_ok s' values cache' ∧
         ∀ a, D s' x a = D s u (override values a)
-  | Err e => e = ENeedsReordering ∧ is_Some (last_len s)
+  | Err e => benign s e
   end.
 Proof.
   induction fuel as [|f IH]; intros s u ord values cache r s' HI Hu Hord Hc Hfuel; [lia|].
@@ -155,7 +155,7 @@ Proof.
     apply IH in Ep' as (HI1&He1&Hf1&Hp); [|done|done|apply Hord'; lia|done|lia].
     destruct rp as [[x c1]|e]; cycle 1.
     { rewrite (bind_err _ _ _ _ _ Ep). intros [= <- <-].
-      destruct Hp as [-> ?]. by split_and!. }
+      by split_and!. }
     rewrite (bind_ok _ _ _ _ _ Ep). intros [= <- <-].
     destruct Hp as (Hxv&Hxl&Hc1&HxD).
     assert (HDr : ∀ a, D s1 (flip x u) a = D s u (override values a)).
@@ -176,7 +176,7 @@ Proof.
     apply IH in Ep' as (HI1&He1&Hf1&Hp); [|done|done|apply Hord'; lia|done|lia].
     destruct rp as [[p c1]|e]; cycle 1.
     { rewrite (bind_err _ _ _ _ _ Ep). intros [= <- <-].
-      destruct Hp as [-> ?]. by split_and!. }
+      by split_and!. }
     rewrite (bind_ok _ _ _ _ _ Ep). cbv beta iota. rewrite bind_assoc.
     destruct Hp as (Hpv&Hpl&Hc1&HpD).
     assert (Hnv1 : nvars s1 = nvars s) by (by apply extends_nvars).
@@ -188,8 +188,7 @@ Proof.
        |rewrite Hnv1, (lvl_extends s s1) by done; lia].
     destruct rq as [[q c2]|e]; cycle 1.
     { rewrite (bind_err _ _ _ _ _ Eq). intros [= <- <-].
-      destruct Hq as [-> Hll']. split_and!; [done|by etrans|by etrans|done|].
-      by apply (frame_last_len s s1). }
+      split_and!; [done|by etrans|by etrans|]. apply (benign_frame s s1); [done|apply Hq]. }
     rewrite (bind_ok _ _ _ _ _ Eq). cbv beta iota. rewrite bind_assoc.
     destruct Hq as (Hqv&Hql&Hc2&HqD).
     rewrite (lvl_extends s s1 (t_hi t)) in Hql by done.
@@ -202,8 +201,8 @@ Proof.
     apply find_or_add_spec in Ew' as (HI3&He3&Hf3&Hw); [|done..].
     destruct rw as [w|e]; cycle 1.
     { rewrite (bind_err _ _ _ _ _ Ew). intros [= <- <-].
-      destruct Hw as (->&Hll'&_). split_and!; [done|by etrans|by do 2 etrans|done|].
-      apply (frame_last_len s s1); [done|]. by apply (frame_last_len s1 s2). }
+      split_and!; [done|by etrans|by do 2 etrans|].
+      apply (benign_frame s s1); [done|]. apply (benign_frame s1 s2); [done|apply Hw]. }
     rewrite (bind_ok _ _ _ _ _ Ew).
     destruct Hw as (Hwv&Hwl&HwD).
     cbn [bind ret]. intros [= <- <-].
@@ -234,7 +233,7 @@ Theorem cofactor_rec_spec fuel : ∀ s u ord values cache r s',
   match r with
   | Ok (x, cache') => valid s' x ∧ lvl_of s u ≤ lvl_of s' x ∧ cache_ok s' values cache' ∧
         ∀ a, D s' x a = D s u (override values a)
-  | Err e => e = ENeedsReordering ∧ is_Some (last_len s)
+  | Err e => benign s e
   end.
 Proof. intros s u ord values cache r s' HI Hu _. by apply cofactor_rec_aux. Qed.
 
@@ -293,13 +292,13 @@ Proof. apply pure_map_to_level_dict. Qed.
 
 (** ** the decorated [cofactor], dynamic reordering disabled *)
 Lemma cofactor_names_spec s u values lv r s' :
-  Inv s → valid s u → last_len s = None →
+  Inv s → valid s u → last_len s = None → max_nodes s = None →
   map_to_level_dict true values (s <| rctx := true |>) = (Ok lv, s <| rctx := true |>) →
   cofactor_names u values s = (r, s') →
   ∃ x, r = Ok x ∧ Inv s' ∧ extends s s' ∧ valid s' x ∧
        ∀ a, D s' x a = D s u (override lv a).
 Proof.
-  intros HI Hu Hoff Hmap Hrun. unfold cofactor_names in Hrun.
+  intros HI Hu Hoff Hmx Hmap Hrun. unfold cofactor_names in Hrun.
   apply try_to_reorder_inert in Hrun as (r1&s1&Hrun&Hcase).
   set (s0 := s <| rctx := true |>) in *.
   assert (HI0 : Inv s0) by (by apply Inv_rctx).
@@ -312,8 +311,7 @@ Proof.
   apply cofactor_rec_aux in Erec' as (HI2&He2&Hf2&Hr);
     [|done|done| |apply cache_ok_empty|lia].
   2:{ intros k Hk _. apply elem_of_sorted_levels. by apply elem_of_dom. }
-  assert (Hnone : ∀ e, ¬ (e = ENeedsReordering ∧ is_Some (last_len s0))).
-  { intros e [_ [l Hl]]. change (last_len s0) with (last_len s) in Hl. congruence. }
+  assert (Hnone : ∀ e, ¬ benign s0 e) by (intros e; by apply benign_never).
   destruct rr as [[x c]|e]; [|by destruct (Hnone e)].
   rewrite (bind_ok _ _ _ _ _ Erec) in Hrun. cbn [fst ret] in Hrun.
   injection Hrun as <- <-.
@@ -344,14 +342,14 @@ Proof.
 Qed.
 
 Theorem cofactor_spec s u byname values lv r s' :
-  Inv s → valid s u → last_len s = None →
+  Inv s → valid s u → last_len s = None → max_nodes s = None →
   map_to_level_dict byname values (s <| rctx := true |>) = (Ok lv, s <| rctx := true |>) →
   cofactor u byname values s = (r, s') →
   ∃ x, r = Ok x ∧ Inv s' ∧ extends s s' ∧ valid s' x ∧
        ∀ a, D s' x a = D s u (override lv a).
 Proof.
   destruct byname; [apply cofactor_names_spec|].
-  intros HI Hu Hoff Hmap Hrun.
+  intros HI Hu Hoff Hmx Hmap Hrun.
   destruct (cofactor_levels_run s u values lv (s <| rctx := true |>) HI) as (_&_&Hd&E);
     [by rewrite Hmap|done|].
   rewrite E in Hrun.
@@ -361,13 +359,13 @@ Qed.
 
 (** variant: whatever state the key mapping is said to end in *)
 Corollary cofactor_spec' s u byname values lv r s' s2 :
-  Inv s → valid s u → last_len s = None →
+  Inv s → valid s u → last_len s = None → max_nodes s = None →
   map_to_level_dict byname values (s <| rctx := true |>) = (Ok lv, s2) →
   cofactor u byname values s = (r, s') →
   ∃ x, r = Ok x ∧ Inv s' ∧ extends s s' ∧ valid s' x ∧
        ∀ a, D s' x a = D s u (override lv a).
 Proof.
-  intros HI Hu Hoff Hmap. pose proof (map_to_level_dict_state _ _ _ _ _ Hmap) as ->.
+  intros HI Hu Hoff Hmx Hmap. pose proof (map_to_level_dict_state _ _ _ _ _ Hmap) as ->.
   by apply cofactor_spec.
 Qed.
 
@@ -423,7 +421,7 @@ Lemma compose_rec_aux fuel : ∀ s f_ j g cache r s',
   | Ok (x, cache') => valid s' x ∧
         lvl_of s f_ `min` lvl_of s g ≤ lvl_of s' x ∧ cache_ok_c s' j cache' ∧
         ∀ a, D s' x a = D s f_ (upd a j (D s g a))
-  | Err e => e = ENeedsReordering ∧ is_Some (last_len s)
+  | Err e => benign s e
   end.
 Proof.
   induction fuel as [|fu IH]; intros s f_ j g cache r s' HI Hf Hg Hnr Hc Hfuel; [lia|].
@@ -452,7 +450,7 @@ Proof.
     apply ite_spec in Ew' as (HI1&He1&Hf1&Hw); [|done..].
     destruct rw as [w|e]; cycle 1.
     { rewrite (bind_err _ _ _ _ _ Ew). intros [= <- <-].
-      destruct Hw as [-> ?]. by split_and!. }
+      by split_and!. }
     rewrite (bind_ok _ _ _ _ _ Ew). cbn [bind ret]. intros [= <- <-].
     destruct Hw as (Hwv&Hwl&HwD).
     assert (Hlw : lvl_of s f_ `min` lvl_of s g ≤ lvl_of s1 w).
@@ -497,7 +495,7 @@ Proof.
       [|done|done|done|done|done|by apply (min_descent z)].
     destruct rp as [[p c1]|e]; cycle 1.
     { rewrite (bind_err _ _ _ _ _ Ep). intros [= <- <-].
-      destruct Hp as [-> ?]. by split_and!. }
+      by split_and!. }
     rewrite (bind_ok _ _ _ _ _ Ep). cbv beta iota. rewrite bind_assoc.
     destruct Hp as (Hpv&Hpl&Hc1&HpD).
     assert (Hnv1 : nvars s1 = nvars s) by (by apply extends_nvars).
@@ -510,8 +508,7 @@ Proof.
        |rewrite Hnv1, !(lvl_extends s s1) by done; by apply (min_descent z)].
     destruct rq as [[q c2]|e]; cycle 1.
     { rewrite (bind_err _ _ _ _ _ Eq). intros [= <- <-].
-      destruct Hq as [-> Hll']. split_and!; [done|by etrans|by etrans|done|].
-      by apply (frame_last_len s s1). }
+      split_and!; [done|by etrans|by etrans|]. apply (benign_frame s s1); [done|apply Hq]. }
     rewrite (bind_ok _ _ _ _ _ Eq). cbv beta iota. rewrite bind_assoc.
     destruct Hq as (Hqv&Hql&Hc2&HqD).
     rewrite !(lvl_extends s s1) in Hql by done.
@@ -525,8 +522,8 @@ Proof.
     apply find_or_add_spec in Ew' as (HI3&He3&Hf3&Hw); [|done..].
     destruct rw as [w|e]; cycle 1.
     { rewrite (bind_err _ _ _ _ _ Ew). intros [= <- <-].
-      destruct Hw as (->&Hll'&_). split_and!; [done|by etrans|by do 2 etrans|done|].
-      apply (frame_last_len s s1); [done|]. by apply (frame_last_len s1 s2). }
+      split_and!; [done|by etrans|by do 2 etrans|].
+      apply (benign_frame s s1); [done|]. apply (benign_frame s1 s2); [done|apply Hw]. }
     rewrite (bind_ok _ _ _ _ _ Ew).
     destruct Hw as (Hwv&Hwl&HwD).
     cbn [bind ret]. intros [= <- <-].
@@ -559,7 +556,7 @@ Theorem compose_rec_spec fuel : ∀ s f_ j g cache r s',
   | Ok (x, cache') => valid s' x ∧
         lvl_of s f_ `min` lvl_of s g ≤ lvl_of s' x ∧ cache_ok_c s' j cache' ∧
         ∀ a, D s' x a = D s f_ (upd a j (D s g a))
-  | Err e => e = ENeedsReordering ∧ is_Some (last_len s)
+  | Err e => benign s e
   end.
 Proof. intros s f_ j g cache r s' HI Hf Hg Hnr _. by apply compose_rec_aux. Qed.
 
@@ -579,13 +576,13 @@ Proof. lia. Qed.
 
 (** ** the decorated [compose] with one substitution, reordering disabled *)
 Theorem compose_spec s f_ var g j r s' :
-  Inv s → valid s f_ → valid s g → last_len s = None →
+  Inv s → valid s f_ → valid s g → last_len s = None → max_nodes s = None →
   vars s !! var = Some j →
   compose f_ [(var, g)] s = (r, s') →
   ∃ x, r = Ok x ∧ Inv s' ∧ extends s s' ∧ valid s' x ∧
        ∀ a, D s' x a = D s f_ (upd a j (D s g a)).
 Proof.
-  intros HI Hf Hg Hoff Hvar Hrun. unfold compose in Hrun.
+  intros HI Hf Hg Hoff Hmx Hvar Hrun. unfold compose in Hrun.
   apply try_to_reorder_inert in Hrun as (r1&s1&Hrun&Hcase).
   set (s0 := s <| rctx := true |>) in *.
   assert (HI0 : Inv s0) by (by apply Inv_rctx).
@@ -598,7 +595,7 @@ Proof.
   apply compose_rec_aux in Erec' as (HI2&He2&Hf2&Hr);
     [|done|done|done|by left|apply cache_ok_c_empty|apply compose_fuel_ok].
   destruct rr as [[x c]|e]; cycle 1.
-  { destruct Hr as [_ [l Hl]]. change (last_len s0) with (last_len s) in Hl. congruence. }
+  { by destruct (benign_never s0 e Hoff Hmx). }
   rewrite (bind_ok _ _ _ _ _ Erec) in Hrun. cbn [fst ret] in Hrun.
   injection Hrun as <- <-.
   destruct Hcase as [[[=] _]|[-> ->]].
